@@ -9,6 +9,10 @@ from ..abpe import ABPE
 from ..effects import TRIE_NODE, STORAGES
 
 
+def self_attr_name(e):
+    return e.attr if isinstance(e, ast.Attribute) and isinstance(e.value, ast.Name) and e.value.id == 'self' else None
+
+
 def invariant_defs(ctx, u, stmts):
     """assignments of u, outside the region `stmts`, that define a name the region reads, exactly once, from request parameters,
     constants and other such names only (no package call): executing them before the region gives the region's atoms their meaning
@@ -35,8 +39,7 @@ def invariant_defs(ctx, u, stmts):
             if isinstance(val, (ast.Call, ast.Attribute, ast.Subscript, ast.List, ast.Dict, ast.Set, ast.ListComp)):
                 continue
             used = {x.id for x in ast.walk(val) if isinstance(x, ast.Name)}
-            if not used <= done | {n_ for n_ in used if n_.isupper()}:
-                read |= used
+            if used & bound:
                 continue
             st = [a for a in P.own(u, ast.Assign) if a.value is val]
             if st and id(st[0]) not in region_nodes:
@@ -278,6 +281,26 @@ def clear_agree(ctx, rr):
                 for fu, c in sites:
                     rr.fail(ctx.finding('R-CLEAR-AGREE', fu, c, '%s compiles a creation rule with flags %s while the other sites use %s: the same rule matches differently depending on '
                                         'whether it was installed by the constructor, by clear() or later' % (fu.qual, list(flags), list(major))))
+    # clear() rebuilds the trie and the link store objects: whatever __init__ derived from them and kept on the Traph must be derived
+    # again, otherwise the Traph goes on using a part (header, node) of the discarded structure
+    init = P.method('Traph', '__init__')
+    rebuilt = {self_attr_name(t) for a in P.own(u, ast.Assign) for t in a.targets if self_attr_name(t)}
+    derived = {}
+    for a in P.own(init, ast.Assign):
+        for t in a.targets:
+            nm = self_attr_name(t)
+            if not nm:
+                continue
+            srcs = {self_attr_name(x) for x in ast.walk(a.value) if self_attr_name(x)}
+            if srcs & {'lru_trie', 'link_store'} and nm not in ('lru_trie', 'link_store'):
+                derived[nm] = a
+    for nm, a in derived.items():
+        okd = nm in rebuilt
+        rr.ob(ctx.where(init, a), 'self.%s, derived from the trie / link store by __init__, is derived again by clear()' % nm, ok=okd)
+        if not okd:
+            rr.fail(ctx.finding('R-CLEAR-AGREE', init, a, 'Traph.__init__ keeps `self.%s = %s`, a part of the trie / link store object that clear() discards and rebuilds, but clear() does not '
+                                'bind it again: after a clear the Traph works on the old object (e.g. the old header with the old webentity-id counter, written over the fresh one)'
+                                % (nm, ast.unparse(a.value)[:50]), stmt='clear derived %s' % nm))
     # optional rule arguments of clear() are told apart from "not given" by None-ness: b"" and {} are legitimate values
     for prm in u.call_params:
         tr = any(('truthy:' + prm) in r.val for r in rows)
@@ -657,7 +680,7 @@ def ancestor_flag(ctx, rr):
             raise AnalysisError('R-ANCESTOR-FLAG: loop of add_lru is neither `while index < length` nor `for index in range(.., length)`')
         I, L = il
         keep = lambda n, c: n in (flagp, 'can_have_child_webentities', 'write', 'node', 'read_child', 'set_child')
-        rows = tables(ctx, al, stmts=w.body, iters=1, keep=keep)
+        rows = tables(ctx, al, stmts=w.body, iters=1, keep=keep, hoist=True)
         bad = []
         for r in rows:
             fp = r.val.get('truthy:' + flagp)
